@@ -91,16 +91,63 @@ theorem enclS.inB_of_ne {A : IVal K} {v : FVal K} (h : enclS A v) (hv : v ≠ na
   · exact absurd h hv
   · exact h
 
-@[simp] theorem b_of (b : Bnd K) (u : Bool) : (IVal.of b u).b = b := rfl
+/-- the constructor `Interval(const I&, bool)` (after /repo e33236f): NaN-bounded results are replaced
+    by the whole line -/
+theorem b_of (b : Bnd K) (u : Bool) :
+    (IVal.of b u).b = if (b.lo.isNan || b.hi.isNan) = true then wholeB else b := by
+  unfold IVal.of
+  split <;> rfl
+
+/-- bounds without a NaN are kept -/
+theorem b_of_keep {b : Bnd K} (u : Bool) (hl : b.lo ≠ nan) (hh : b.hi ≠ nan) :
+    (IVal.of b u).b = b := by
+  rw [b_of]
+  have h1 : b.lo.isNan = false := by cases h : b.lo <;> simp_all [FVal.isNan]
+  have h2 : b.hi.isNan = false := by cases h : b.hi <;> simp_all [FVal.isNan]
+  simp [h1, h2]
+
 @[simp] theorem mn_of (b : Bnd K) (u : Bool) :
-    (IVal.of b u).mn = (u || b.lo.isNan || b.hi.isNan) := rfl
+    (IVal.of b u).mn = (u || b.lo.isNan || b.hi.isNan) := by
+  unfold IVal.of
+  split
+  · next h => simp only [Bool.or_assoc, h, Bool.or_true]
+  · next h =>
+    have h' : (b.lo.isNan || b.hi.isNan) = false := by simpa using h
+    simp only [Bool.or_assoc, h', Bool.or_false]
+
+/-- a value inside the Boost bounds is inside the constructed interval (bounds that contain a value
+    have no NaN, so they are kept) -/
+theorem inB_of {bnd : Bnd K} {u : Bool} {r : FVal K} (h : inBb bnd r) : inB (IVal.of bnd u) r := by
+  unfold inB
+  rw [b_of_keep u (ne_nan_of_le_l h.2.1) (ne_nan_of_le_r h.2.2)]
+  exact h
+
+/-- bounds of a constructed interval: the Boost bounds, or the whole line -/
+theorem inB_of_iff {bnd : Bnd K} {u : Bool} {r : FVal K} :
+    inB (IVal.of bnd u) r ↔
+      (inBb bnd r ∨ (r ≠ nan ∧ (bnd.lo.isNan || bnd.hi.isNan) = true)) := by
+  unfold inB
+  rw [b_of]
+  by_cases h : (bnd.lo.isNan || bnd.hi.isNan) = true
+  · simp only [h, if_true]
+    constructor
+    · intro hr; exact Or.inr ⟨hr.1, trivial⟩
+    · rintro (hr | ⟨hr, _⟩)
+      · refine ⟨hr.1, ?_, ?_⟩ <;> cases r <;> simp_all [wholeB, FVal.le, inBb]
+      · refine ⟨hr, ?_, ?_⟩ <;> cases r <;> simp_all [wholeB, FVal.le]
+  · simp only [h, if_false]
+    constructor
+    · intro hr; exact Or.inl hr
+    · rintro (hr | ⟨_, hr⟩)
+      · exact hr
+      · exact absurd hr (by simp)
 
 /-- assembling a result: NaN forces the flag, a non-NaN value is inside the bounds -/
 theorem enclS_of {bnd : Bnd K} {u : Bool} {r : FVal K}
     (hnan : r = nan → u = true) (hin : r ≠ nan → inBb bnd r) : enclS (IVal.of bnd u) r := by
   by_cases h : r = nan
   · exact Or.inl ⟨by simp [hnan h], h⟩
-  · exact Or.inr (hin h)
+  · exact Or.inr (inB_of (hin h))
 
 theorem enclS_mk {lo hi : FVal K} {u : Bool} {r : FVal K}
     (hnan : r = nan → u = true) (hin : r ≠ nan → inBb ⟨lo, hi⟩ r) : enclS ⟨lo, hi, u⟩ r := by
@@ -441,15 +488,15 @@ theorem nanfill_enclS (hS : BoostSound Bo P) {A B : IVal K} {a b : FVal K}
       simp only [FVal.isNan, if_true]
       rcases hb with ⟨hbm, rfl⟩ | hb
       · exact Or.inl ⟨by simp [hbm], rfl⟩
-      · exact Or.inr (hS.hull_r _ _ _ hb)
+      · exact Or.inr (inB_of (hS.hull_r _ _ _ hb))
     · have : a.isNan = false := by cases a <;> simp_all [FVal.isNan]
       simp only [this]
-      exact Or.inr (hS.hull_l _ _ _ (ha.inB_of_ne h1))
+      exact Or.inr (inB_of (hS.hull_l _ _ _ (ha.inB_of_ne h1)))
   · simp only [hm]
     have h1 : a ≠ nan := by rintro rfl; exact hm ha.mn_of_nan
     have : a.isNan = false := by cases a <;> simp_all [FVal.isNan]
     simp only [this]
-    exact Or.inr (ha.inB_of_ne h1)
+    exact Or.inr (inB_of (ha.inB_of_ne h1))
 
 theorem flt_asymm {x y : FVal K} (h : FVal.lt x y = true) : FVal.lt y x = false := by
   cases x <;> cases y <;> simp_all [FVal.lt]
